@@ -143,6 +143,12 @@ def plan(prop, tier):
     F = seq_families(tier)
     if prop in GENERIC:
         fams = group_small([(n, c, r) for n, (c, r) in F.items()])
+        # degenerate parameters and arities: take(0), skip(0), merge!() and concat!() of no member
+        eb = dict(maxData=2, maxTop=3, maxPull=2, allowFail=True)
+        edge = [scen.with_bounds(scen.unary("take", n=0), "take", **eb), scen.with_bounds(scen.unary("skip", n=0), "skip", **eb),
+                scen.with_bounds({"nodes": [{"id": 1, "kind": "merge", "ups": []}], "root": 1}, "merge", **eb),
+                scen.with_bounds({"nodes": [{"id": 1, "kind": "concat", "ups": []}], "root": 1}, "concat", **eb)]
+        fams.append(("edge", edge, None))
         if prop in ("C04", "C17"):
             # for_each as a sink of the crate, directly on a puppet source (no tap in between)
             for mode in ("any", "pull"):
@@ -156,15 +162,15 @@ def plan(prop, tier):
                      "root": 2}
                 fams.append((f"interval_{kind}", scen.with_bounds(g, kind, maxTop=5 if tier == "quick" else 7, maxPull=1,
                                                                 allowFail=False), None))
-            g = {"nodes": [{"id": 1, "kind": "interval", "period": 1}, {"id": 2, "kind": "interval", "period": 2},
-                           {"id": 3, "kind": "merge", "ups": [1, 2]}, {"id": 4, "kind": "take", "n": 2, "ups": [3]}], "root": 4}
+            gm = {"nodes": [{"id": 1, "kind": "interval", "period": 1}, {"id": 2, "kind": "interval", "period": 2},
+                            {"id": 3, "kind": "merge", "ups": [1, 2]}, {"id": 4, "kind": "take", "n": 2, "ups": [3]}], "root": 4}
             # README: pipe!(interval, map, filter, take, for_each)
             g = {"nodes": [{"id": 1, "kind": "interval", "period": 1}, {"id": 2, "kind": "map", "f": "inc", "ups": [1]},
                            {"id": 3, "kind": "filter", "p": "odd", "ups": [2]}, {"id": 4, "kind": "take", "n": 2, "ups": [3]}],
                  "root": 4}
             fams.append(("interval_pipeline", scen.with_bounds(g, "take", sinks=["foreach"], maxTop=6 if tier == "quick" else 8,
                                                                maxPull=0, allowFail=False), None))
-            fams.append(("interval_merge_take", scen.with_bounds(g, "take", maxTop=5 if tier == "quick" else 7, maxPull=0,
+            fams.append(("interval_merge_take", scen.with_bounds(gm, "take", maxTop=5 if tier == "quick" else 7, maxPull=0,
                                                                  allowFail=False), None))
         if prop == "C17":
             # C17 only: upstreams that greet later than the subscribing call, for every operator (the other
